@@ -318,6 +318,40 @@ impl<T> VecList<T> {
     }
 }
 
+#[cfg(dnp3_verif)]
+impl<T> VecList<T> {
+    /// verif hook H6: the raw structure of the list, for the harness's audit
+    pub(crate) fn verif_facts(&self) -> crate::verif::probe::ListFacts {
+        let slots = self.storage.len();
+        let mut forward = Vec::new();
+        let mut cur = self.state.map(|s| s.head);
+        while let Some(i) = cur {
+            if forward.len() > slots || i >= slots {
+                break;
+            }
+            forward.push(i);
+            cur = self.storage[i].metadata.next;
+        }
+        let mut backward = Vec::new();
+        let mut cur = self.state.map(|s| s.tail);
+        while let Some(i) = cur {
+            if backward.len() > slots || i >= slots {
+                break;
+            }
+            backward.push(i);
+            cur = self.storage[i].metadata.prev;
+        }
+        crate::verif::probe::ListFacts {
+            forward,
+            backward,
+            size: self.len(),
+            slots,
+            free: self.free_stack.iter().copied().collect(),
+            is_free: self.storage.iter().map(|e| e.is_free).collect(),
+        }
+    }
+}
+
 #[cfg(test)]
 mod tests {
     use super::*;
